@@ -138,7 +138,10 @@ def dcWrapper (rec : Heap → Item → R Item) (strict : Bool) (B : BackRef) (me
           match rec h1 (.ref o) with
           | (h2, none) => (h2, none)
           | (h2, some io) => allocLike h2 (h.cells w).tag (its ++ [(backKey, io)])
-    | _ => allocLike h1 (h.cells w).tag its
+    -- a back-reference that is not a heap object (the `_NestedOwner` stand-in of a nested wrapper is dumped
+    -- as an atom): kept as it is
+    | some (.atom v) => allocLike h1 (h.cells w).tag (its ++ [(backKey, .atom v)])
+    | none => allocLike h1 (h.cells w).tag its
 
 /-- one `__dict__` entry of the structure `self` being copied into `new`: a wrapper is copied with
     the memo `{self ↦ new}`, anything else by `recV` (the walk "inside an owner that is being copied") -/
